@@ -49,6 +49,33 @@ def build(geo="th4"):
     return b
 
 
+def build_eval():
+    """harness for the evaluation crate (C19)"""
+    if "eval" in _built:
+        return _built["eval"]
+    tdir = os.path.join(VERIF, "target", "eval")
+    env = dict(os.environ, CARGO_NET_OFFLINE="true", RUSTFLAGS="-Awarnings")
+    r = sh(["cargo", "build", "--offline", "--quiet", "--target-dir", tdir], cwd=os.path.join(VERIF, "harness-eval"), env=env)
+    if r.returncode != 0:
+        raise ToolError("eval harness build failed:\n%s" % r.stdout[-4000:])
+    _built["eval"] = os.path.join(tdir, "debug", "vharness-eval")
+    return _built["eval"]
+
+
+def build_replay():
+    """the repository's own replay binary (C20), built into /verif/target"""
+    if "replay" in _built:
+        return _built["replay"]
+    tdir = os.path.join(VERIF, "target", "evalbin")
+    env = dict(os.environ, CARGO_NET_OFFLINE="true", RUSTFLAGS="-Awarnings")
+    r = sh(["cargo", "build", "-p", "llfree-eval", "--bin", "replay", "--offline", "--quiet", "--target-dir", tdir],
+           cwd="/repo", env=env)
+    if r.returncode != 0:
+        raise ToolError("replay build failed:\n%s" % r.stdout[-4000:])
+    _built["replay"] = os.path.join(tdir, "debug", "replay")
+    return _built["replay"]
+
+
 def build_all(geos):
     with ThreadPoolExecutor(max_workers=4) as ex:
         list(ex.map(build, geos))
@@ -265,9 +292,19 @@ class Result:
         self.failures = []
         self.notes = []
         self.distinct = set()
+        # failures of these properties' predicates count as failures of this property
+        # (the runs are about this property; the predicates are shared)
+        self.aliases = set()
 
     def add_failures(self, fs):
-        self.failures += [f for f in fs if f["prop"] == self.prop]
+        for f in fs:
+            if f["prop"] == self.prop:
+                self.failures.append(f)
+            elif f["prop"] in self.aliases:
+                g = dict(f)
+                g["check"] = "%s/%s" % (f["prop"], f["check"])
+                g["prop"] = self.prop
+                self.failures.append(g)
 
     def sample(self, x):
         if len(self.cov["samples"]) < 6:
@@ -315,14 +352,14 @@ class Result:
 
 
 def harness(geo, args, timeout=3600):
-    b = build(geo)
+    b = build_eval() if geo == "eval" else build(geo)
     r = sh([b] + args, timeout=timeout)
     if r.returncode != 0:
         raise ToolError("harness %s failed rc=%d:\n%s" % (" ".join(args), r.returncode, r.stdout[-3000:]))
     return r.stdout
 
 
-def gen_and_validate(res, jobs, props, par=None):
+def gen_and_validate(res, jobs, props, par=None, module="TraceAbs"):
     """jobs: list of (geo, [harness args without out=]); each produces one trace file,
     validated by TLC; failures for res.prop are collected."""
     os.makedirs(WORK, exist_ok=True)
@@ -332,7 +369,7 @@ def gen_and_validate(res, jobs, props, par=None):
         i, (geo, args) = ij
         out = os.path.join(WORK, "tr-%s-%d-%d.ndjson" % (res.prop, os.getpid(), i))
         harness(geo, args + ["out=" + out, "props=" + ",".join(props)])
-        v = validate_file(out, props)
+        v = validate_file(out, props, module)
         v["job"] = [geo] + args
         # distinct non-trivial events: digest of (event without observation)
         dig = set()
@@ -345,7 +382,7 @@ def gen_and_validate(res, jobs, props, par=None):
                 o = e.get("obs", {})
                 key = json.dumps([geo, strip_obs(e), o.get("trees"), o.get("slots"), o.get("stats")], sort_keys=True)
                 dig.add(hashlib.md5(key.encode()).hexdigest())
-                if first is None and e.get("ev") in ("sc", "bulkget", "call", "crash", "solo"):
+                if first is None and e.get("ev") in ("sc", "bulkget", "call", "crash", "solo", "row", "sb", "ts", "lget"):
                     first = strip_obs(e)
             v["sample"] = first
         v["digests"] = dig
